@@ -36,6 +36,9 @@ Templates == { [kind |-> "file", dirs |-> d, declared |-> s, actual |-> s, inner
                [kind |-> "fakezip", dirs |-> 0, declared |-> 3, actual |-> 3, inner |-> "none", again |-> FALSE],
                \* a zip64 header declaring 2^63 bytes or more (beyond every limit, negative once read as a signed size) over a small stream
                [kind |-> "file", dirs |-> 0, declared |-> Overflow, actual |-> 3, inner |-> "none", again |-> FALSE] }
+       \* a nested archive whose first entry (three units) is sound and whose second entry is damaged (local header signature): extracted
+       \* recursively it cannot be completed - the extraction reports an error, whatever it has written by then; not recursively it is a small file
+       \cup  { [kind |-> "nestedbroken", dirs |-> 0, declared |-> 0, actual |-> 0, inner |-> "none", again |-> FALSE] }
        \* the same name twice: a one-unit entry first, then the three-unit entry that replaces it - three units are what stays on disk
        \cup  { [kind |-> "repeat", dirs |-> 0, declared |-> 3, actual |-> 3, inner |-> "none", again |-> FALSE] }
        \* explicit directory entries and nothing in them: "q0/", "q0/q1/", ... (each an item of the tree at the depth of its path)
@@ -47,7 +50,7 @@ CONSTANT Thorough   \* FALSE: a covering subset of archives and limit configurat
 LimitValues == {0, 1, 2, 3, Big}
 VARIABLES archive, maxFile, maxTotal, maxCount, maxDepth, recursive
 vars == <<archive, maxFile, maxTotal, maxCount, maxDepth, recursive>>
-Core == {t \in Templates : (t.kind = "file" /\ t.dirs = 1) \/ t.kind = "fakezip" \/ t.kind = "dirchain" \/ t.kind = "repeat" \/ t.declared = Overflow \/ (t.kind = "nested" /\ t.dirs = 0 /\ ~t.again /\ t.inner \in {"two", "bomb"})
+Core == {t \in Templates : (t.kind = "file" /\ t.dirs = 1) \/ t.kind = "fakezip" \/ t.kind = "dirchain" \/ t.kind = "repeat" \/ t.kind = "nestedbroken" \/ t.declared = Overflow \/ (t.kind = "nested" /\ t.dirs = 0 /\ ~t.again /\ t.inner \in {"two", "bomb"})
                             \/ (t.kind = "nested" /\ t.dirs = 1 /\ t.again /\ t.inner = "deep")}
 Archives == {<<t>> : t \in Templates} \cup {<<t, u>> : t \in (IF Thorough THEN Templates ELSE Core), u \in (IF Thorough THEN Templates ELSE Core)}
 \* each limit independently tiny / exact / off by one / huge; at most two (quick: one) limits away from "huge" at a time
@@ -81,7 +84,8 @@ WouldExceed == \/ \E k \in 1..Len(Files) : Files[k].size > maxFile
                \/ Len(Files) > maxCount
                \/ (maxDepth >= 0 /\ \E k \in 1..Len(Files) : Files[k].depth > maxDepth)
 \* an entry with less data than its header declares cannot be extracted; the statement asks for an error
-ShortData == \E k \in 1..Len(archive) : archive[k].actual < archive[k].declared
+ShortData == \/ \E k \in 1..Len(archive) : archive[k].actual < archive[k].declared
+             \/ (recursive /\ \E k \in 1..Len(archive) : archive[k].kind = "nestedbroken")
 
 WellDefined == Len(Files) >= 1
 Scenario == [archive |-> archive, maxFile |-> maxFile, maxTotal |-> maxTotal, maxCount |-> maxCount, maxDepth |-> maxDepth, recursive |-> recursive,
